@@ -438,14 +438,14 @@ func (self Value) getByPath(pathes ...Path) (Value, []int) {
 	case proto.MAP:
 		kt = desc.Key().Type()
 		et = desc.Elem().Type()
-		if s, err := p.SkipAllElements(desc.BaseId(), desc.IsPacked()); err != nil {
+		if s, err := p.SkipAllElementsOf(desc.BaseId(), desc.IsPacked(), elemWireOf(desc)); err != nil {
 			return errValue(errCodeOf(err).Behavior(), "invalid map node.", err), address
 		} else {
 			size = s
 		}
 	case proto.LIST:
 		et = desc.Elem().Type()
-		if s, err := p.SkipAllElements(desc.BaseId(), desc.IsPacked()); err != nil {
+		if s, err := p.SkipAllElementsOf(desc.BaseId(), desc.IsPacked(), elemWireOf(desc)); err != nil {
 			return errValue(errCodeOf(err).Behavior(), "invalid list node.", err), address
 		} else {
 			size = s
@@ -1023,7 +1023,7 @@ func (self Value) FieldByName(name string) (v Value) {
 			typDesc := f.Type()
 			if typDesc.IsMap() || typDesc.IsList() {
 				it.p.Read = tagPos
-				if _, err := it.p.SkipAllElements(i, typDesc.IsPacked()); err != nil {
+				if _, err := it.p.SkipAllElementsOf(i, typDesc.IsPacked(), elemWireOf(typDesc)); err != nil {
 					return errValue(meta.ErrRead, "SkipAllElements in LIST/MAP failed", err)
 				}
 				s = tagPos
